@@ -164,3 +164,15 @@ Proof.
   intros Hi. unfold arr_set, in_bounds. destruct (Z.leb_spec 0 i); [|lia].
   destruct (Z.ltb_spec i (Z.of_nat (length a))), (Nat.ltb_spec (Z.to_nat i) (length a)); try reflexivity; lia.
 Qed.
+
+Lemma while_loop_cond_false {St R : Type} fuel (cond : St -> bool) (body : St -> res (flow St R)) s :
+  cond s = false -> while_loop fuel cond body s = Done (Exited s).
+Proof. intros H. destruct fuel; cbn [while_loop]; rewrite H; reflexivity. Qed.
+
+(* `i << BIT_SHIFT` is i * w for a power-of-two digit width *)
+Lemma ix_shl_BIT_SHIFT w lg i : 0 <= lg -> w = 2 ^ lg -> ix_shl i (digit_BIT_SHIFT w) = i * w.
+Proof.
+  intros Hlg ->. unfold ix_shl, digit_BIT_SHIFT.
+  rewrite <- (Z2Nat.id lg) at 1 by lia. rewrite tz32_pow2, Z2Nat.id by lia.
+  apply Z.shiftl_mul_pow2. lia.
+Qed.
